@@ -138,7 +138,9 @@ def stepMux (capped : Bool) (evS declS hex impl : String) : DrvOut :=
   | _, _ => { model := "bad-op" }
 
 /-- e2e list k (init hex)^k -/
-def stepE2EList (args : List String) (impl : String) : DrvOut :=
+def stepE2EList (variant : String) (args0 : List String) (impl : String) : DrvOut :=
+  -- end = start of the first segment: the later segments (10 s apart) are not selected, hence not parsed
+  let args := if variant == "listE0" || variant == "listSE0" then args0.take 2 else args0
   let rec go : List String → Bool → Bool → Bool → Bool → Option (Bool × Bool × Bool × Bool)
     | [], anyPanic, anyErr, fxErr, bad => some (anyPanic, anyErr, fxErr, bad)
     | i :: h :: rest, anyPanic, anyErr, fxErr, bad =>
@@ -156,8 +158,13 @@ def stepE2EList (args : List String) (impl : String) : DrvOut :=
   | none => { model := "bad-op" }
   | some (anyPanic, anyErr, fxErr, bad) =>
     if bad then { model := "-", spec := "FAIL library oracle panicked or returned TimeScale 0" } else
-    let curS := if anyPanic then "crash div" else if anyErr then "nocrash 500" else "nocrash 200"
-    let fixS := if fxErr then "nocrash 500" else "nocrash 200"
+    -- listB: the window ends before every segment: FindSegments finds nothing, no file is opened -> 404
+    -- listA: the window starts after every segment (they last < 2 h): parsed, then the only span ends before start -> 404
+    let okS := if variant == "listA" then "nocrash 404" else "nocrash 200"
+    let curS := if variant == "listB" then "nocrash 404"
+      else if anyPanic then "crash div" else if anyErr then "nocrash 500" else okS
+    let fixS := if variant == "listB" then "nocrash 404" else if fxErr then "nocrash 500" else okS
+    let anyPanic := anyPanic && variant != "listB"
     if impl == curS then
       if anyPanic then { model := impl, spec := "KNOWN mvhd-timescale-zero GET /list killed the server process (integer divide by zero in a parseSegments goroutine)" }
       else { model := impl }
@@ -211,10 +218,14 @@ def step (u : Unit) (op impl : String) : Unit × DrvOut :=
   | ["parsex", i, h] => (u, stepParse true i h impl)
   | ["durx", t, h] => (u, stepDur true t h impl)
   | ["muxx", e, d, h] => (u, stepMux true e d h impl)
-  | "e2e" :: "list" :: _ :: rest => (u, stepE2EList rest impl)
-  | "e2e" :: "lists" :: _ :: rest => (u, stepE2EList rest impl)
-  | "e2e" :: "liste" :: _ :: rest => (u, stepE2EList rest impl)
-  | "e2e" :: "listse" :: _ :: rest => (u, stepE2EList rest impl)
+  | "e2e" :: "list" :: _ :: rest => (u, stepE2EList "list" rest impl)
+  | "e2e" :: "lists" :: _ :: rest => (u, stepE2EList "lists" rest impl)
+  | "e2e" :: "liste" :: _ :: rest => (u, stepE2EList "liste" rest impl)
+  | "e2e" :: "listse" :: _ :: rest => (u, stepE2EList "listse" rest impl)
+  | "e2e" :: "listA" :: _ :: rest => (u, stepE2EList "listA" rest impl)
+  | "e2e" :: "listB" :: _ :: rest => (u, stepE2EList "listB" rest impl)
+  | "e2e" :: "listE0" :: _ :: rest => (u, stepE2EList "listE0" rest impl)
+  | "e2e" :: "listSE0" :: _ :: rest => (u, stepE2EList "listSE0" rest impl)
   | ["e2e", "get", i, e, h] => (u, stepE2EGet i e h impl)
   | _ => (u, { model := "bad-op" })
 
